@@ -145,13 +145,18 @@ func runProperty(spec *PropSpec, tier string, seed uint64) int {
 	knownHit := map[string]int{}
 	os.MkdirAll(verifDir+"/replays/"+spec.ID, 0755)
 	var lines []string
+	sigSeen := map[string]int{}
 	for _, v := range out.violations {
 		if k := kf.match(spec.ID, v.Sig); k != nil {
 			knownHit[k.ID]++
 			continue
 		}
 		nviol++
-		name := fmt.Sprintf("%s/replays/%s/%d-%s.json", verifDir, spec.ID, seed, sanitize(v.Case))
+		sigSeen[v.Sig]++
+		if sigSeen[v.Sig] > 2 && nviol > 10 {
+			continue // enough witnesses of this signature
+		}
+		name := fmt.Sprintf("%s/replays/%s/%d-%s-%s.json", verifDir, spec.ID, seed, sanitize(v.Case), sanitize(strings.TrimPrefix(v.Sig, strings.ToLower(spec.ID)+":")))
 		rp := ReplayFile{Property: spec.ID, Case: v.Case, Sig: v.Sig, Detail: v.Detail, Job: v.job, Replay: v.Replay}
 		b, _ := json.MarshalIndent(rp, "", " ")
 		os.WriteFile(name, b, 0644)
@@ -162,10 +167,14 @@ func runProperty(spec *PropSpec, tier string, seed uint64) int {
 	}
 	bySig := map[string]int{}
 	for _, v := range out.violations {
-		bySig[v.Sig]++
+		if kf.match(spec.ID, v.Sig) != nil {
+			bySig["(known finding) "+v.Sig]++
+		} else {
+			bySig[v.Sig]++
+		}
 	}
 	for sg, n := range bySig {
-		fmt.Printf("  violations by signature: %-60s %d\n", sg, n)
+		fmt.Printf("  by signature: %-70s %d\n", sg, n)
 	}
 	for _, k := range kf.Findings {
 		if k.Property == spec.ID && k.Status == "open" && knownHit[k.ID] > 0 {
